@@ -575,3 +575,16 @@ def opts(it, fields):
     m = c.sym('optmode', 8, hi=k + 1)
     idx = c.choose([m == j for j in range(k + 2)], 'optmode')
     return {n: (SOME(t()) if idx in (j + 1, k + 1) else NONE()) for j, (n, t) in enumerate(fields)}
+
+
+def run_main(main):
+    """entry wrapper of every check: an exception inside the check script itself (a shape the script did not expect, a missing
+    model) is a failure of the MACHINERY, not a verdict about the code - exit 2 (inconclusive), never 1 and never 0."""
+    try:
+        return main()
+    except SystemExit:
+        raise
+    except Exception:
+        traceback.print_exc()
+        print('INCONCLUSIVE: the check script failed with the exception above (harness error, no verdict about the code)')
+        return 2
